@@ -347,6 +347,82 @@ def run(F, chk):
                               "entries, the writer pads or cuts them)" % (cfn["name"], arr, gets[0]["name"]))
     chk.floor(R5, 4)
 
+    # ---------------------------------------------------------------- R13.6
+    R6 = chk.rule("R13.6", "an array that a geometry class's reader sizes (and its writer stores) only under a bool flag of the class is "
+                           "never filled by a member function that leaves the flag alone: the function that assigns the array also "
+                           "assigns the flag — otherwise the getter (which answers with the flag) hands nothing out and the writer "
+                           "stores nothing although the data was set")
+    import re as _re6
+    import versions as _versions6
+    VE6 = _versions6.VersionEval(F)
+    gated6 = {}
+    for fn in F.fns.values():
+        if fn.get("short") != "Sync" or fn.get("tmpl") == "pattern" or not fn.get("cls"):
+            continue
+        for ev in S5.events(fn["id"]):
+            if ev.kind == "mut" and ev.info.get("op") == "resize" and ev.path and ev.path[0][0] == "this" and len(ev.path) == 2 \
+                    and len(ev.chain) == 1:
+                gn = set()
+                for g in ev.guards:
+                    node = flow.KEYNODE.get(g[0])
+                    expr = node[1] if isinstance(node, tuple) else node
+                    if is_node(expr) and VE6.is_version_expr(expr):
+                        continue
+                    if len(g) > 2 and g[2]:
+                        continue
+                    if g[1] is True and _re6.fullmatch(r"[A-Za-z_]\w*", g[0]):
+                        gn.add(g[0])
+                own, _ = F.find_field(fn["cls"], ev.path[1])
+                gated6.setdefault((own, ev.path[1]), []).append(gn)
+    gated6 = {k: set.intersection(*v) for k, v in gated6.items() if set.intersection(*v)}
+
+    def _own_member(e):
+        while is_node(e) and e["k"] == "Cast":
+            e = e["e"]
+        if is_node(e) and e["k"] == "Member" and (e.get("base") is None or e["base"]["k"] == "This"):
+            return e
+        return None
+
+    n6 = 0
+    for (own, arr), gate in sorted(gated6.items()):
+        if not (F.derives_from(own, "nifly::NiGeometryData") or F.derives_from(own, "nifly::BSTriShape") or own == "nifly::StripsInfo"):
+            continue
+        bools = {g for g in gate if any(f["name"] == g and (f.get("ct") or "").replace("const ", "") == "bool"
+                                        for _, f in F.fields(own, inherited=True))}
+        if not bools:
+            continue
+        for fn in sorted(F.fns.values(), key=lambda f: f["id"]):
+            if not fn.get("body") or not fn.get("cls") or fn.get("tmpl") == "pattern" or fn.get("short") in ("Sync", "Get", "Put") \
+                    or fn.get("ctor") or not F.derives_from(fn["cls"], own):
+                continue
+            fills, flags = [], []
+            for n in walk(fn["body"]):
+                tgt = None
+                if n["k"] == "OpCall" and n.get("op") == "=" and len(n.get("args", [])) == 2:
+                    tgt = n["args"][0]
+                elif n["k"] == "Call" and n.get("ext") and n.get("short") in ("assign", "push_back", "emplace_back", "insert") and is_node(n.get("recv")):
+                    tgt = n["recv"]
+                elif n["k"] == "Assign":
+                    m = _own_member(n["l"])
+                    if m is not None and m["name"] in bools:
+                        flags.append(n)
+                    continue
+                m = _own_member(tgt) if tgt is not None else None
+                if m is not None and m["name"] == arr and m.get("owner") == own:
+                    fills.append(n)
+            if not fills:
+                continue
+            n6 += 1
+            ok = bool(flags)
+            chk.instance(R6, ok=ok, sample={"fn": fn["name"], "array": "%s::%s" % (own, arr), "flag": sorted(bools)})
+            if not ok:
+                chk.violation("R13.6", "C13/R13.6:%s:%s" % (fn["name"].split("(")[0], arr), where(fn, fills[0]),
+                              "%s assigns `%s`, which %s::Sync reads and writes only under `%s`, without assigning that flag: data set "
+                              "on an object whose flag is off is not handed back by the getter and not stored by a save" %
+                              (fn["name"], arr, own.split("::")[-1], "/".join(sorted(bools))))
+    chk.extra["R13.6_flag_gated_arrays"] = len(gated6)
+    chk.floor(R6, 1)
+
     chk.assumptions += ["quantisation (half floats, byte colours/normals), triangle order, vertex-count preservation and save/reload "
                         "equality are value-level and NOT decided by this check"]
     chk.extra["explanation"] = ("thin partial: setter/getter storage-field agreement only (a necessary condition of read-back); "
